@@ -44,6 +44,18 @@ func (t TermLocations) Less(i, j int) bool {
 	return t[i].Start < t[j].Start
 }
 
+// within returns the locations that lie within a text of n bytes,
+// that is 0 <= Start <= End <= n, in their original order
+func (t TermLocations) within(n int) TermLocations {
+	rv := make(TermLocations, 0, len(t))
+	for _, tl := range t {
+		if tl != nil && tl.Start >= 0 && tl.Start <= tl.End && tl.End <= n {
+			rv = append(rv, tl)
+		}
+	}
+	return rv
+}
+
 func (t TermLocations) MergeOverlapping() {
 	var lastTl *TermLocation
 	for i, tl := range t {
